@@ -23,6 +23,7 @@ import (
 	"log/slog"
 	"net"
 	"net/netip"
+	"slices"
 	"strconv"
 	"time"
 
@@ -264,6 +265,13 @@ func (m *roaManager) handleRTRMsg(client *roaClient, state *oc.RpkiServerState, 
 					client.pendingROAs = append(client.pendingROAs, roa)
 				}
 			} else {
+				if !client.endOfData {
+					// a withdrawal also cancels an announcement of the same
+					// record that is still buffered until End of Data
+					client.pendingROAs = slices.DeleteFunc(client.pendingROAs, func(r *table.ROA) bool {
+						return r.Family == roa.Family && r.Network.String() == roa.Network.String() && r.Equal(roa)
+					})
+				}
 				m.table.Delete(roa)
 			}
 		case *rtr.RTREndOfData:
